@@ -131,13 +131,18 @@ SetIB(w, b) == SetIBEff(w, b)
 (* before the pool chose).                                                                            *)
 (* qs, qp = state and priority the dispatcher's queue reports for c at that moment.                    *)
 Bad == {<<w, ibv[w]>> : w \in {x \in Wk : ib[x] \in {"hold", "drain"}}}
-StartCallEff(c, bad) == /\ pend' = [pend EXCEPT ![c] = Append(@, bad)]
+\* (only the two latest decisions for a container are kept: a decision that was never followed by
+\*  an exec must not legitimise a start for ever)
+StartCallEff(c, bad) == /\ pend' = [pend EXCEPT ![c] = IF Len(@) >= 2 THEN <<@[Len(@)], bad>> ELSE Append(@, bad)]
                         /\ UNCHANGED <<api, procs, ib, ibv, lk, lkNext, pass, ever, mode>>
 StartCall(c, bad, qs, qp) ==
     /\ mode = "exact" => qs = "Locked" /\ qp > 0 /\ c \in ever   \* (b)
     /\ mode = "sound" => c \in pass                              \* (b)
     /\ mode = "async" => c \in ever                              \* (b)
-    /\ mode = "exact" => NoProc(c)                                \* (a) at the decision
+    /\ mode = "exact" => NoProc(c)                                \* (a) at the decision: in the scheduler-level
+                                                                  \* binding the pool stub knows every process; a decision
+                                                                  \* made while one is alive can only avoid an overlap by
+                                                                  \* luck (the old one ending before the exec)
     /\ StartCallEff(c, bad)
 
 (* End-to-end binding: process tables are sampled when a process starts.  others = the instances     *)
